@@ -409,3 +409,26 @@ type floatFact struct {
 	A, B  *fterm
 	Taken bool
 }
+
+// termNonNeg: the term is a square (one monomial with even exponents and a
+// positive coefficient over a positive constant), hence >= 0 for real values.
+func termNonNeg(t *fterm) bool {
+	if t == nil || len(t.D) != 1 || len(t.N) != 1 {
+		return false
+	}
+	d, ok := t.D[""]
+	if !ok || d.Sign() <= 0 {
+		return false
+	}
+	for k, c := range t.N {
+		if c.Sign() <= 0 {
+			return false
+		}
+		for _, e := range parseMono(k) {
+			if e%2 != 0 {
+				return false
+			}
+		}
+	}
+	return true
+}
